@@ -1,7 +1,12 @@
 //! Correspondence harness: runs the REAL Glonax code in-process and writes one line per case
 //! (`<prop> <input tokens> => <observed output tokens>`) for the Lean model driver.
 mod util;
+mod fmt;
+mod bus;
+mod c01;
+mod c02;
 mod c07;
+mod c17;
 
 use util::*;
 
@@ -18,15 +23,19 @@ fn main() {
     std::env::set_var("RUST_BACKTRACE", "0");
     silence_panics();
     let mut rng = Rng::new(seed);
-    match prop {
-        "C07" => {
-            let mut out = Out::new("C07", path);
-            c07::run(&mut out, tier, &mut rng);
-            out.finish();
-        }
+    let f: fn(&mut Out, &str, &mut Rng) = match prop {
+        "C01" => c01::run,
+        "C02" => c02::run,
+        "C07" => c07::run,
+        "C17" => c17::run,
         _ => {
             eprintln!("unknown property {}", prop);
             std::process::exit(2);
         }
-    }
+    };
+    let name: &'static str = Box::leak(prop.to_string().into_boxed_str());
+    let mut out = Out::new(name, path);
+    f(&mut out, tier, &mut rng);
+    out.finish();
+    bus::cleanup();
 }
